@@ -117,7 +117,7 @@ def strategy(draw):
     return {"contigs": CONTIGS[:ncont], "samples": samples, "pedigree": ped, "fmt_ad": fmt_ad, "fmt_dp": fmt_dp,
             "records": records, "sample_id": sample_id, "normal_id": normal_id,
             "min_depth": draw(st.sampled_from([None, 0, 1, 10, 20, 50])), "skip_somatic": draw(st.booleans()),
-            "het_min_depth": draw(st.sampled_from([0, 1, 10, 20])), "zyg_freq": draw(st.sampled_from([None, None, 0.25, 0.1])),
+            "het_min_depth": draw(st.sampled_from([0, 1, 10, 20])), "zyg_freq": draw(st.sampled_from([None, None, 0.25, 0.1, 0.0])),
             "ranges": ranges, "above_half": draw(st.sampled_from([None, True, False])), "tumor_boost": draw(st.booleans()),
             "purity": draw(st.sampled_from([None, 0.5, 0.8]))}
 
